@@ -34,3 +34,30 @@ func TestVerifReproC28NewConnectionIDLength(t *testing.T) {
 		t.Errorf("NEW_CONNECTION_ID with Length byte 0x40 accepted: n=%d connID=%x; want -1", n, cid)
 	}
 }
+
+// updatingKeyPair.unprotect uses maxPacketNumber as the "nothing received in the next phase yet" sentinel and
+// compares with `pnum < k.minReceived`: a current-phase packet numbered exactly 2^62-1 (a legal packet number,
+// RFC 9000 §12.3) that arrives while a locally initiated key update is pending is opened with the NEXT phase key
+// and dropped. (Practically unreachable: needs 2^62 packets. `<=` or a separate flag would repair it.)
+func TestVerifReproC28KeyUpdateSentinel(t *testing.T) {
+	var k updatingKeyPair
+	secret := make([]byte, 32)
+	k.init()
+	k.r.init(0x1301, secret) // tls.TLS_AES_128_GCM_SHA256
+	k.w.init(0x1301, secret) // loopback: read keys = write keys
+	k.updateAfter = 0        // this packet starts a key update right after being protected
+	pnum := packetNumber(maxPacketNumber)
+	var w packetWriter
+	w.reset(1200)
+	w.start1RTTPacket(pnum, pnum-1, nil)
+	w.appendPingFrame()
+	if w.finish1RTTPacket(pnum, pnum-1, nil, &k) == nil {
+		t.Fatal("no packet")
+	}
+	if !k.updating {
+		t.Fatal("expected a pending key update")
+	}
+	if _, err := parse1RTTPacket(append([]byte(nil), w.datagram()...), &k, 0, pnum-1); err != nil {
+		t.Errorf("current-phase packet %d rejected while a key update is pending: %v", pnum, err)
+	}
+}
